@@ -17,9 +17,13 @@ MANIFEST = {
             "uv_getaddrinfo, uv_spawn, bind/connect exits, uv_fs_poll_start, uv_fs_event_start, uv_os_environ) is "
             "fault-atomic: under any single allocation or system call failure it either has its fault-free effect "
             "or returns the mapped UV_E* code leaving request/handle counters and the resource ledger exactly as "
-            "before; hence accounting survives arbitrary operation and fault sequences.  The model is tied to the "
+            "before; hence accounting survives arbitrary operation and fault sequences.  Descriptor ownership across a "
+            "failed adoption (a TCP handle with remembered TCP_NODELAY / keep-alive options is given a socket by uv_accept, "
+            "uv_tcp_open or lazy creation while a setsockopt is refused) is modelled separately: the handle never claims a "
+            "number that is not open, so descriptors opened afterwards survive its close.  The model is tied to the "
             "working tree by a census of every EINTR retry loop in the sources and by exhaustive single-fault "
-            "enumeration (plus storms and pairs) of the real library over a 15-scenario catalogue with property "
+            "enumeration (plus storms and pairs) of the real library over a 33-scenario catalogue (15 subsystem scenarios, "
+            "18 remembered-option x adoption-path scenarios) with property "
             "monitors.",
     "note": "Trusted: the interposition layer of harness/c16_sim.c (faults are injected at the libc boundary; "
             "calls libc makes internally, e.g. inside getaddrinfo/scandir/fopen, are not failed), Linux/epoll build "
